@@ -1,9 +1,164 @@
+import RsslVerif.Model.Parse
 import RsslVerif.Driver.Util
-/-! Line-protocol front end of the C09 model (stub until the model is built). -/
+/-! Line-protocol front end of the C09 model: `C09.rt <ctx> <tree>` ↦ `<printed text> ==> <re-read tree | ERR:parse>`. -/
 namespace RsslVerif.Driver.C09
+open RsslVerif.Gen.FmtTables RsslVerif.Gen.ParseTables RsslVerif.Model.Format RsslVerif.Model.Parse
+
+inductive SExp where
+  | atom (s : String)
+  | list (l : List SExp)
+  deriving Inhabited
+
+/-- tokens of the request syntax: `(`, `)`, atoms -/
+def sexpTokens (s : String) : List String :=
+  let rec go (cs : List Char) (cur : List Char) (acc : List String) : List String :=
+    let flush := if cur.isEmpty then acc else String.ofList cur.reverse :: acc
+    match cs with
+    | [] => flush.reverse
+    | c :: r =>
+      if c == '(' then go r [] ("(" :: flush)
+      else if c == ')' then go r [] (")" :: flush)
+      else if c == ' ' then go r [] flush
+      else go r (c :: cur) acc
+  go s.toList [] []
+
+/-- stack-based reader; `none` on unbalanced input -/
+def readSExp (toks : List String) : Option SExp :=
+  let rec go (ts : List String) (stack : List (List SExp)) : Option SExp :=
+    match ts with
+    | [] => match stack with
+      | [[x]] => some x
+      | _ => none
+    | t :: r =>
+      if t == "(" then go r ([] :: stack)
+      else if t == ")" then
+        match stack with
+        | top :: parent :: rest => go r ((SExp.list top.reverse :: parent) :: rest)
+        | _ => none
+      else
+        match stack with
+        | top :: rest => go r ((SExp.atom t :: top) :: rest)
+        | [] => none
+  go toks [[]]
+
+def scopedName : List SExp → Option String
+  | .atom "::" :: rest =>
+    (sequenceOpt (rest.map fun | .atom a => some a | _ => none)).bind fun parts =>
+      if parts.isEmpty then none else some ("::" ++ "::".intercalate parts)
+  | parts =>
+    (sequenceOpt (parts.map fun | .atom a => some a | _ => none)).bind fun parts =>
+      if parts.isEmpty then none else some ("::".intercalate parts)
+
+mutual
+/-- `none` = malformed; `some none` = a node kind outside the model -/
+partial def toExpr : SExp → Option (Option Expr)
+  | .list (.atom "lit" :: [.atom k, .atom v]) => some (some (.lit (k ++ " " ++ v)))
+  | .list (.atom "id" :: parts) => (scopedName parts).map fun n => some (.id n)
+  | .list [.atom "un", .atom op, x] =>
+    match UnOp.ofName? op, toExpr x with
+    | some op, some (some x) => some (some (.un op x))
+    | some _, some none => some none
+    | _, _ => none
+  | .list [.atom "bin", .atom op, l, r] =>
+    match BinOp.ofName? op, toExpr l, toExpr r with
+    | some op, some (some l), some (some r) => some (some (.bin op l r))
+    | some _, some _, some _ => some none
+    | _, _, _ => none
+  | .list [.atom "tern", c, a, b] =>
+    match toExpr c, toExpr a, toExpr b with
+    | some (some c), some (some a), some (some b) => some (some (.tern c a b))
+    | some _, some _, some _ => some none
+    | _, _, _ => none
+  | .list [.atom "sub", o, i] =>
+    match toExpr o, toExpr i with
+    | some (some o), some (some i) => some (some (.sub o i))
+    | some _, some _ => some none
+    | _, _ => none
+  | .list (.atom "mem" :: o :: parts) =>
+    match toExpr o, scopedName parts with
+    | some (some o), some n => some (some (.mem o n))
+    | some none, some _ => some none
+    | _, _ => none
+  | .list [.atom "call", f, .list targs, .list args] =>
+    match toExpr f, toArgs args with
+    | some (some f), some (some a) => if targs.isEmpty then some (some (.call f a)) else some none
+    | some _, some _ => some none
+    | _, _ => none
+  | .list (.atom "cast" :: _) => some none
+  | .list (.atom "sizeof" :: _) => some none
+  | .list (.atom "binit" :: _) => some none
+  | _ => none
+partial def toArgs : List SExp → Option (Option Args)
+  | [] => some (some .nil)
+  | x :: r =>
+    match toExpr x, toArgs r with
+    | some (some e), some (some a) => some (some (.cons e a))
+    | some _, some _ => some none
+    | _, _ => none
+end
+
+def showName (n : String) : String := " ".intercalate ((if n.startsWith "::" then ["::"] else []) ++
+  ((if n.startsWith "::" then (n.drop 2).toString else n).splitOn "::"))
+
+mutual
+def showExpr : Expr → String
+  | .lit n => "(lit " ++ n ++ ")"
+  | .id n => "(id " ++ showName n ++ ")"
+  | .un op x => "(un " ++ op.name ++ " " ++ showExpr x ++ ")"
+  | .bin op l r => "(bin " ++ op.name ++ " " ++ showExpr l ++ " " ++ showExpr r ++ ")"
+  | .tern c a b => "(tern " ++ showExpr c ++ " " ++ showExpr a ++ " " ++ showExpr b ++ ")"
+  | .sub o i => "(sub " ++ showExpr o ++ " " ++ showExpr i ++ ")"
+  | .mem o n => "(mem " ++ showExpr o ++ " " ++ showName n ++ ")"
+  | .call f args => "(call " ++ showExpr f ++ " () (" ++ " ".intercalate (showArgs args) ++ "))"
+def showArgs : Args → List String
+  | .nil => []
+  | .cons e r => showExpr e :: showArgs r
+end
+
+/-- could `expr_p1_call`'s template-argument attempt fire somewhere? (`<` … `>` directly followed by `(`) -/
+def templateShape : List Tok → Bool
+  | [] => false
+  | .lt _ :: rest =>
+    let rec closes : List Tok → Bool
+      | .gt _ :: .p .LeftParen :: _ => true
+      | _ :: r => closes r
+      | [] => false
+    closes rest || templateShape rest
+  | _ :: rest => templateShape rest
+
+/-- adjacent pieces the lexer reads differently from the printed tokens: an untyped integer literal directly
+followed by `.` starts a float literal (`3.m` is rejected by the lexer) -/
+def gluedIntPeriod : List Piece → Bool
+  | .t (.lit n) _ :: .t (.p .Period) _ :: .t (.id m) s :: rest =>
+    -- `literal_float` gives the characters back when the "suffix" starts with `x` (a swizzle on an integer)
+    (n.startsWith "i " && !m.startsWith "x") || gluedIntPeriod (.t (.id m) s :: rest)
+  | _ :: rest => gluedIntPeriod rest
+  | [] => false
 
 def handle (op : String) (args : List String) : String :=
-  let _ := (op, args)
-  "unsupported-op"
+  match op, args with
+  | "C09.rt", [ctx, tree] =>
+    match (readSExp (sexpTokens tree)).bind toExpr with
+    | none => "bad-request"
+    | some none => "unsupported node kind"
+    | some (some e) =>
+      if !e.supported then "unsupported literal" else
+      let pieces? : Option (List Piece × Terminator) :=
+        if ctx == "ret" || ctx == "stmt" then some (fmtExpr e, .Standard)
+        else if ctx == "init" then some (fmtInit e, .Sequence)
+        else if ctx == "arg" then some (fmtSub e callArgPrec callArgSide, callArgTerminator)
+        else if ctx == "idx" then some (fmtSub e precArraySubscript subIndexSide, subscriptTerminator)
+        else none
+      match pieces? with
+      | none => "bad-request"
+      | some (pieces, term) =>
+        let ts := toks pieces
+        if templateShape ts then "unsupported template-argument attempt" else
+        if gluedIntPeriod pieces then render pieces ++ " ==> ERR:lex" else
+        let back := match parseAll term ts with
+          | some (e', []) => showExpr e'
+          | _ => "ERR:parse"
+        render pieces ++ " ==> " ++ back
+  | _, _ => "unsupported-op"
 
 end RsslVerif.Driver.C09
